@@ -94,56 +94,77 @@ def trieOps (H : Bytes → Bytes) : TrieOps Trie where
 def toHash (v : Bytes) : Bytes :=
   if v.length > 32 then v.drop (v.length - 32) else List.replicate (32 - v.length) 0 ++ v
 
-/-- `InMemoryTrie`: root node and `childTries map[common.Hash]*InMemoryTrie` -/
+/-- `InMemoryTrie`: root node and `childTries map[common.Hash]*InMemoryTrie`.  The map values are
+    pointers: `kids` maps a hash to an object id, `heap` holds the objects (one object can be
+    reachable under several hashes after an in-place mutation that left a stale key behind). -/
 structure Mem where
   main : Trie
-  kids : KMap Trie
+  kids : KMap Nat
+  heap : List (Nat × Trie)
+  next : Nat
 
 namespace Mem
 
-def empty : Mem := { main := Trie.nil, kids := [] }
+def empty : Mem := { main := Trie.nil, kids := [], heap := [], next := 0 }
 
-/-- `getInternalChildTrie` -/
-def getChild (m : Mem) (ck : Bytes) : ChildSt Trie :=
+def deref (m : Mem) (id : Nat) : Trie :=
+  match m.heap.find? (fun e => e.1 == id) with
+  | some e => e.2
+  | none => Trie.nil
+
+def store (m : Mem) (id : Nat) (c : Trie) : Mem :=
+  { m with heap := (id, c) :: m.heap.filter (fun e => !(e.1 == id)) }
+
+/-- `getInternalChildTrie`: the object id -/
+def getChildId (m : Mem) (ck : Bytes) : ChildSt Nat :=
   match Trie.get m.main (childPrefix ++ ck) with
   | none => .missing
   | some h =>
     match KMap.find (toHash h) m.kids with
     | none => .dangling
-    | some c => .present c
+    | some id => .present id
 
-/-- `SetChild` -/
-def setChild (H : Bytes → Bytes) (m : Mem) (ck : Bytes) (c : Trie) : Mem :=
-  let h := hashTrie Ver.v0 H c
-  { main := Trie.put m.main (childPrefix ++ ck) h, kids := KMap.ins h c m.kids }
+def getChild (m : Mem) (ck : Bytes) : ChildSt Trie :=
+  match getChildId m ck with
+  | .missing => .missing
+  | .dangling => .dangling
+  | .present id => .present (deref m id)
+
+/-- `SetChild` with the object `id` (whose content is already stored) -/
+def setChild (H : Bytes → Bytes) (m : Mem) (ck : Bytes) (id : Nat) : Mem :=
+  let h := hashTrie Ver.v0 H (deref m id)
+  { m with main := Trie.put m.main (childPrefix ++ ck) h, kids := KMap.ins h id m.kids }
 
 def deleteChild (m : Mem) (ck : Bytes) : Mem :=
   { m with main := Trie.delete m.main (childPrefix ++ ck) }
 
 def putIntoChild (H : Bytes → Bytes) (m : Mem) (ck k : Bytes) (v : Option Bytes) : Option Mem :=
-  let go (c : Trie) : Mem :=
+  let go (m : Mem) (id : Nat) : Mem :=
+    let c := deref m id
     let orig := hashTrie Ver.v0 H c
-    let c' := Trie.put c k (v.getD [])
-    setChild H { m with kids := KMap.del orig m.kids } ck c'
-  match getChild m ck with
-  | .missing => some (go Trie.nil)
+    let m1 := store m id (Trie.put c k (v.getD []))
+    setChild H { m1 with kids := KMap.del orig m1.kids } ck id
+  match getChildId m ck with
+  | .missing => some (go (store { m with next := m.next + 1 } m.next Trie.nil) m.next)
   | .dangling => none
-  | .present c => some (go c)
+  | .present id => some (go m id)
 
 def clearFromChild (H : Bytes → Bytes) (m : Mem) (ck k : Bytes) : Option Mem :=
-  match getChild m ck with
-  | .present c =>
+  match getChildId m ck with
+  | .present id =>
+    let c := deref m id
     let orig := hashTrie Ver.v0 H c
     let c' := Trie.delete c k
-    let m' := { m with kids := KMap.del orig m.kids }
-    if c'.isNil then some (deleteChild m' ck) else some (setChild H m' ck c')
+    let m1 := store m id c'
+    let m2 := { m1 with kids := KMap.del orig m1.kids }
+    if c'.isNil then some (deleteChild m2 ck) else some (setChild H m2 ck id)
   | _ => none
 
-/-- in-place mutation of the object found by `GetChild` (the hash key is not updated) -/
+/-- in-place mutation of the object found by `GetChild` (no hash key is updated) -/
 def setChildObj (m : Mem) (ck : Bytes) (c : Trie) : Mem :=
-  match Trie.get m.main (childPrefix ++ ck) with
-  | none => m
-  | some h => if KMap.has (toHash h) m.kids then { m with kids := KMap.ins (toHash h) c m.kids } else m
+  match getChildId m ck with
+  | .present id => store m id c
+  | _ => m
 
 end Mem
 
